@@ -18,6 +18,35 @@ pub fn verif_now() -> SystemTime { unimplemented!() }
 
 //@@ item src/storage/consumer_groups.rs PendingEntry
 //@@ item src/storage/consumer_groups.rs PendingEntryList
+//@@ item src/storage/stream.rs StreamEntry
+/// the ids of a batch of entries, in order
+pub open spec fn ids_of(es: Seq<StreamEntry>) -> Seq<StreamId> { es.map_values(|e: StreamEntry| e.id) }
+/// `consumer.to_string()` on a &str (RXPR site)
+#[verifier::external_body]
+pub fn verif_to_string(s: &str) -> (r: String)
+    ensures r == string_of(s@),
+{ s.to_string() }
+/// `a > b` on StreamId (R7 site): the order of the packed value (stream.rs:193-205)
+#[verifier::external_body]
+pub fn sid_gt(a: StreamId, b: StreamId) -> (r: bool)
+    ensures r == (a.packed > b.packed),
+{ a > b }
+/// `entries.last()` (RXPR site)
+#[verifier::external_body]
+pub fn verif_last<T>(v: &Vec<T>) -> (r: Option<&T>)
+    ensures r == (if v@.len() == 0 { None::<&T> } else { Some(&v@[v@.len() - 1]) }),
+{ v.last() }
+/// distinct elements that all occur in a duplicate-free list are at most as many as the list is long
+pub proof fn lemma_sub_len(s: Seq<StreamId>, l: Seq<StreamId>)
+    requires s.no_duplicates(), l.no_duplicates(), forall|i: int| 0 <= i < s.len() ==> l.contains(#[trigger] s[i]),
+    ensures s.len() <= l.len(),
+{
+    s.unique_seq_to_set(); l.unique_seq_to_set();
+    assert(s.to_set().subset_of(l.to_set())) by {
+        assert forall|x: StreamId| s.to_set().contains(x) implies l.to_set().contains(x) by { let i = choose|i: int| 0 <= i < s.len() && s[i] == x; assert(l.contains(s[i])); }
+    }
+    vstd::set_lib::lemma_len_subset(s.to_set(), l.to_set());
+}
 
 pub type Ids = Map<StreamId, PendingEntry>;
 pub type Idx = Map<String, Vec<StreamId>>;
@@ -328,6 +357,75 @@ impl ConsumerGroup {
             forall|x: StreamId| #[trigger] final(self).pending.ids().contains_key(x) <==> (old(self).pending.ids().contains_key(x) && old(self).pending.ids()[x].consumer != string_of(consumer_name@)),
             forall|x: StreamId| #[trigger] final(self).pending.ids().contains_key(x) ==> final(self).pending.ids()[x] == old(self).pending.ids()[x],
             r == (if old(self).consumers@.contains_key(string_of(consumer_name@)) { owned(old(self).pending.idx(), string_of(consumer_name@)) } else { 0 }),
+//@@ body
+//@@ end
+
+//@@ unit group_add_pending fn src/storage/consumer_groups.rs ConsumerGroup::add_pending
+//@@   params drop "&self" add "&mut self"
+//@@   rewrite RT "let mut pending = self.pending.write().unwrap();" ""
+//@@   rewrite RT "self.create_consumer(consumer.to_string());" "self.create_consumer(verif_to_string(consumer)); let pending = &mut self.pending;"
+//@@   rewrite RT "let mut consumers = self.consumers.write().unwrap();" "let consumers = &mut self.consumers;"
+//@@   rewrite RT "let mut total = self.total_pending.lock().unwrap();" "let total = &mut self.total_pending;"
+//@@   rewrite RT "let mut last_id = self.last_delivered_id.lock().unwrap();" "let last_id = &mut self.last_delivered_id;"
+//@@   rewrite RT "let mut redelivered = 0;" "let mut redelivered: usize = 0;"
+//@@   rewrite RT "consumer: consumer.to_string()," "consumer: verif_to_string(consumer),"
+//@@   rewrite RT "entries.last()" "verif_last(&entries)"
+//@@   rewrite RT "last_entry.id > *last_id" "sid_gt(last_entry.id, *last_id)"
+//@@   rewrite RPCALL "SystemTime::now" verif_now
+//@@   rewrite RFOR 0 it
+//@@   loop 0
+//@@|     invariant
+//@@|         it.seq().len() == entries@.len(), forall|j: int| 0 <= j < entries@.len() ==> *(#[trigger] it.seq()[j]) == entries@[j], it.history@ =~= it.seq().take(it.index@),
+//@@|         cname == string_of(consumer@), eids == ids_of(entries@), eids.no_duplicates(), eids.len() == entries@.len(),
+//@@|         pending.wf(),
+//@@|         forall|c: String| #[trigger] consumers@.contains_key(c) ==> consumers@[c].pending_count + (if c == cname { it.index@ } else { 0int }) == owned(pending.idx(), c),
+//@@|         forall|c: String| #[trigger] pending.idx().contains_key(c) ==> consumers@.contains_key(c),
+//@@|         consumers@.dom() == old(self).consumers@.dom().insert(cname),
+//@@|         forall|x: StreamId| #[trigger] pending.ids().contains_key(x) <==> (old(self).pending.ids().contains_key(x) || eids.take(it.index@ as int).contains(x)),
+//@@|         forall|x: StreamId| #[trigger] pending.ids().contains_key(x) ==> (if eids.take(it.index@ as int).contains(x) { pending.ids()[x].consumer == cname && pending.ids()[x].delivery_count == 1 } else { pending.ids()[x] == old(self).pending.ids()[x] }),
+//@@|         redelivered <= it.index@, old(self).pending.ids().dom().len() + it.index@ == pending.ids().dom().len() + redelivered,
+//@@   at "let mut consumers = self.consumers.write().unwrap();"
+//@@|     let ghost cname = string_of(consumer@); let ghost eids = ids_of(entries@);
+//@@   loopstart 0
+//@@|     let ghost i0 = it.index@ as int; let ghost ids_b = pending.ids(); let ghost idx_b = pending.idx(); let ghost cons_b = consumers@;
+//@@|     proof { assert(entry.id == eids[i0]); assert(eids.take(i0 + 1) =~= eids.take(i0).push(entry.id)); lemma_push_contains(eids.take(i0), entry.id);
+//@@|         if eids.take(i0).contains(entry.id) { let k = choose|k: int| 0 <= k < i0 && eids.take(i0)[k] == entry.id; assert(eids[k] == eids[i0]); } }
+//@@   after "if let Some(previous) = pending.remove_entry(&entry.id)"
+//@@|     proof {
+//@@|         let x = entry.id;
+//@@|         if ids_b.contains_key(x) {
+//@@|             let p = ids_b[x].consumer;
+//@@|             assert(idx_b.contains_key(p) && idx_b[p]@.contains(x));
+//@@|             assert(cons_b.contains_key(p));
+//@@|             if p == cname {
+//@@|                 let s = eids.take(i0 + 1);
+//@@|                 assert forall|j: int| 0 <= j < s.len() implies idx_b[cname]@.contains(#[trigger] s[j]) by {
+//@@|                     if j < i0 { assert(eids.take(i0)[j] == eids[j]); assert(eids.take(i0).contains(eids[j])); assert(ids_b.contains_key(eids[j])); assert(ids_b[eids[j]].consumer == cname); }
+//@@|                 }
+//@@|                 lemma_sub_len(s, idx_b[cname]@);
+//@@|             }
+//@@|         }
+//@@|         assert forall|c: String| #[trigger] pending.idx().contains_key(c) implies consumers@.contains_key(c) by { assert(owned(pending.idx(), c) > 0); assert(owned(idx_b, c) >= owned(pending.idx(), c)); assert(idx_b.contains_key(c)); }
+//@@|     }
+//@@|     let ghost idx_m = pending.idx();
+//@@   after "pending.add_entry(pending_entry);"
+//@@|     proof { assert forall|c: String| #[trigger] pending.idx().contains_key(c) implies consumers@.contains_key(c) by { if c != cname { assert(owned(pending.idx(), c) > 0); assert(owned(idx_m, c) > 0); assert(idx_m.contains_key(c)); } } }
+//@@   afterloop 0
+//@@|     proof { assert(eids.take(eids.len() as int) =~= eids); }
+    fn add_pending(&mut self, consumer: &str, entries: Vec<StreamEntry>) -> (r: Vec<StreamEntry>)
+        requires old(self).gwf(), old(self).consumer_count < usize::MAX,
+            // the batch names each entry once (the caller reads it out of the stream, whose ids are strictly increasing)
+            ids_of(entries@).no_duplicates(),
+            // machine arithmetic: the counters do not wrap (they count entries held in memory)
+            old(self).total_pending + entries@.len() <= usize::MAX,
+            owned(old(self).pending.idx(), string_of(consumer@)) + entries@.len() <= usize::MAX,
+        ensures final(self).gwf(), r == entries,
+            final(self).consumers@.dom() =~= old(self).consumers@.dom().insert(string_of(consumer@)),
+            // C16 (XREADGROUP >): every delivered entry is pending for the reading consumer and for nobody else, delivered once; the rest of the pending set is untouched
+            forall|x: StreamId| #[trigger] final(self).pending.ids().contains_key(x) <==> (old(self).pending.ids().contains_key(x) || ids_of(entries@).contains(x)),
+            forall|x: StreamId| #[trigger] final(self).pending.ids().contains_key(x) ==> (if ids_of(entries@).contains(x) { final(self).pending.ids()[x].consumer == string_of(consumer@) && final(self).pending.ids()[x].delivery_count == 1 } else { final(self).pending.ids()[x] == old(self).pending.ids()[x] }),
+            // C16: the cursor moves to the last delivered entry and never backwards
+            final(self).last_delivered_id == (if entries@.len() > 0 && entries@[entries@.len() - 1].id.packed > old(self).last_delivered_id.packed { entries@[entries@.len() - 1].id } else { old(self).last_delivered_id }),
 //@@ body
 //@@ end
 }
